@@ -17,7 +17,7 @@ gvars == <<vars, hist>>
 GAdd(k, v) ==
     /\ Add(k, v)
     /\ hist' = Append(hist, [op |-> "add", k |-> k, v |-> v,
-                             res |-> IF TooBig(k, v) THEN "toobig" ELSE "ok",
+                             res |-> IF TooLong(v) THEN "valsize" ELSE IF TooBig(k, v) THEN "toobig" ELSE "ok",
                              size |-> size', count |-> count'])
 
 GCommit(d) ==
